@@ -4,6 +4,7 @@ import (
 	"encoding/json"
 	"fmt"
 	"sort"
+	"strings"
 )
 
 // index gives the position of every node in the forest.
@@ -477,6 +478,13 @@ func oracleC06(c *Case, obs *RunObs) *Failure {
 	if f := oracleSegs(c, obs.Segs); f != nil {
 		return f
 	}
+	if f := oracleTwice(c, obs); f != nil {
+		return f
+	}
+	return oracleConc(c, obs)
+}
+
+func oracleTwice(c *Case, obs *RunObs) *Failure {
 	if len(obs.Segs2) == 0 {
 		return nil
 	}
@@ -490,16 +498,7 @@ func oracleC06(c *Case, obs *RunObs) *Failure {
 	if hasEager(c) || c.SetFailAt > 0 {
 		return nil
 	}
-	sum := func(s *SegObs) string {
-		info, _ := json.Marshal(s.Info)
-		ms := multiset(s.Execs, true)
-		ks := make([]string, 0, len(ms))
-		for k, n := range ms {
-			ks = append(ks, fmt.Sprintf("%s*%d", k, n))
-		}
-		sort.Strings(ks)
-		return fmt.Sprintf("%s out=%s info=%s sets=%d execs=%v", s.Class, s.Out, info, s.Sets, ks)
-	}
+	sum := segSummary
 	for j := 0; j < len(obs.Segs) || j < len(obs.Segs2); j++ {
 		a, b := "(no such call)", "(no such call)"
 		if j < len(obs.Segs) {
@@ -513,6 +512,41 @@ func oracleC06(c *Case, obs *RunObs) *Failure {
 		}
 	}
 	return nil
+}
+
+// segSummary: what a call showed, as far as it does not depend on goroutine scheduling in a forest without Workflows.
+func segSummary(s *SegObs) string { return segSummaryStrip(s, "") }
+
+// segSummaryStrip: the summary with every occurrence of mark taken out of the values (see concMark).
+func segSummaryStrip(s *SegObs, mark string) string {
+	strip := func(x string) string {
+		if mark == "" {
+			return x
+		}
+		return strings.ReplaceAll(x, mark, "")
+	}
+	info, _ := json.Marshal(s.Info)
+	ms := map[string]int{}
+	for k, n := range multiset(s.Execs, true) {
+		ms[strip(k)] += n
+	}
+	ks := make([]string, 0, len(ms))
+	for k, n := range ms {
+		ks = append(ks, fmt.Sprintf("%s*%d", k, n))
+	}
+	sort.Strings(ks)
+	return fmt.Sprintf("%s out=%s info=%s sets=%d execs=%v", s.Class, strip(s.Out.String()), strip(string(info)), s.Sets, ks)
+}
+
+// batchChain: neither the graph of node id nor any graph around it is a Workflow (eager): every task of a step is
+// collected before the run loop looks at any of them.
+func batchChain(c *Case, ix *index, id int) bool {
+	for _, x := range ix.chain(id) {
+		if c.Graphs[ix.gOf[x]].Mode == "wf" {
+			return false
+		}
+	}
+	return true
 }
 
 // oracleSegs evaluates the clauses on the calls of one driven run.
@@ -548,6 +582,17 @@ func oracleSegs(c *Case, segs []*SegObs) *Failure {
 		}
 		if s.WrapLost {
 			return &Failure{fmt.Sprintf("call %d: the interrupt information cannot be extracted (or is not the same) once the caller wraps the returned error with %%w", j), "info-lost-when-wrapped"}
+		}
+		// (c) a node that asks for a rerun (InterruptAndRerun, bare or wrapped with %w) IS an interrupt: the call returns an
+		// error from which the information can be extracted. Claimed where the run loop has collected the node's task
+		// whatever the schedule (no Workflow around it) and no other node of the step failed (no node fails in these runs
+		// but through a nested run-level failure, which carries a node path).
+		if s.Class != "interrupt" && !s.NodeErr {
+			for _, e := range s.Execs {
+				if e.Abort && batchChain(c, ix, e.ID) {
+					return &Failure{fmt.Sprintf("call %d: %s asked for a rerun (InterruptAndRerun) but the call ended with %s %s: no interrupt information can be extracted from what it returned", j, e.Path, s.Class, s.Err), "rerun-request-not-an-interrupt"}
+				}
+			}
 		}
 		if s.Class == "interrupt" && infoEmpty(s.Info) {
 			return &Failure{fmt.Sprintf("call %d: interrupt error without any interrupt information", j), "info-empty"}
@@ -618,7 +663,17 @@ func oracleSegs(c *Case, segs []*SegObs) *Failure {
 					return &Failure{fmt.Sprintf("call %d: nested interrupt-after node %s completed, its graph was interrupted, but it is not reported", j, e.Path), "after-unreported"}
 				}
 			}
-			// no task created from its output starts in this call
+			// no successor starts in this call. By structure, where a successor cannot have been started by anything
+			// else: in an all-predecessor graph (dag, Workflow control edges) a node behind an edge or a branch of e
+			// runs at most once per run of its graph and only after e completed (whatever e returned: an empty output too)
+			if single && g.Mode != "pregel" {
+				for _, f := range s.Execs {
+					if f.Seq > e.Seq && ix.gOf[f.ID] == ix.gOf[e.ID] && staticSucc(g, e.ID, f.ID) {
+						return &Failure{fmt.Sprintf("call %d: %s, a successor of interrupt-after node %s, starts in the call in which %s completed", j, f.Path, e.Path, e.Path), "after-successor-ran"}
+					}
+				}
+			}
+			// by value: no task created from its output starts in this call
 			k := key(e.ID)
 			for _, f := range s.Execs {
 				if f == e {
@@ -644,6 +699,21 @@ func oracleSegs(c *Case, segs []*SegObs) *Failure {
 		}
 	}
 	return nil
+}
+
+// staticSucc: f is behind a control-carrying edge or a branch of e in g.
+func staticSucc(g *GraphSpec, e, f int) bool {
+	for _, ed := range g.Edges {
+		if ed.From == e && ed.To == f && ed.Kind != 2 {
+			return true
+		}
+	}
+	for _, b := range g.Branches {
+		if b.From == e && has(b.Targets, f) {
+			return true
+		}
+	}
+	return false
 }
 
 func beforeSig(c *Case, ix *index, x int) string {
